@@ -51,6 +51,34 @@ class CaseInvalid(Exception):
     pass
 
 
+WHITELISTS = [None, {}, {Vertex: {Vertex: DirectedEdge}}, {Vertex: {Vertex: UnDirectedEdge, Universe: DirectedEdge}, Universe: {}}]
+DEFAULT_RULES = 0b0110  # mixed_links=False cycles=True multipath=True multiverse=False, whitelist None
+
+
+def rules_kwargs(bits):
+    """bits 0..3 = mixed_links, cycles, multipath, multiverse; bits 4..5 = whitelist index"""
+    wl = WHITELISTS[(bits >> 4) & 3]
+    return {"mixed_links": bool(bits & 1), "cycles": bool(bits & 2), "multipath": bool(bits & 4),
+            "multiverse": bool(bits & 8),
+            "edge_whitelist": None if wl is None else {k: dict(v) for k, v in wl.items()}}
+
+
+def rules_read(L):
+    """what the five getters of a law set report, encoded like rules_kwargs' argument (or -1)"""
+    try:
+        wl = L.edge_whitelist
+        wl = None if wl is None else {k: dict(v) for k, v in wl.items()}
+        idx = [i for i, w in enumerate(WHITELISTS) if w == wl]
+        if not idx:
+            return -1
+        vals = (L.mixed_links, L.cycles, L.multipath, L.multiverse)
+        if any(type(v) is not bool for v in vals):
+            return -1
+        return (idx[0] << 4) | (vals[0] * 1) | (vals[1] * 2) | (vals[2] * 4) | (vals[3] * 8)
+    except Exception:  # noqa: BLE001
+        return -1
+
+
 def kind_of(o):
     return CLS_KIND.get(type(o), "KLaws" if isinstance(o, UniverseLaws) else None)
 
@@ -94,7 +122,7 @@ class World:
 
         def m(lst):
             return [None if x is None else ids.get(id(x), 9999) for x in lst]
-        snap = {"kind": [], "vlinks": [], "lverts": [], "vunis": [], "uverts": [], "ulaws": [], "lapp": []}
+        snap = {"kind": [], "vlinks": [], "lverts": [], "vunis": [], "uverts": [], "ulaws": [], "lapp": [], "rules": []}
         for o in self.objs:
             k = kind_of(o)
             snap["kind"].append(k)
@@ -104,6 +132,7 @@ class World:
             snap["uverts"].append(m(o._vertices) if k == "KUniverse" and hasattr(o, "_vertices") else [])
             snap["ulaws"].append(ids.get(id(o._laws), 9999) if k == "KUniverse" and getattr(o, "_laws", None) is not None else None)
             snap["lapp"].append(ids.get(id(o._applies_to), 9999) if k == "KLaws" and getattr(o, "_applies_to", None) is not None else None)
+            snap["rules"].append(rules_read(o) if k == "KLaws" else None)
         return snap
 
     # ---- one call -------------------------------------------------------------------------
@@ -130,7 +159,8 @@ class World:
                 kw["laws"] = g(op[2], W)
             return ("id", Universe(**kw))
         if t == "NL":
-            return ("id", UniverseLaws(applies_to=g(op[1], U)))
+            kw = rules_kwargs(op[2]) if len(op) > 2 and op[2] is not None else {}
+            return ("id", UniverseLaws(applies_to=g(op[1], U), **kw))
         if t == "NE":
             if op[1] not in LINK_KINDS:
                 raise CaseInvalid("bad link class")
@@ -334,7 +364,7 @@ def gen_history(rng, weights, nops, seed_ops=None):
                     op = ["NU", [pick(vs) for _ in range(k)], pick(Ls) if Ls and rng.random() < 0.3 else None]
             elif t == "NL":
                 if len(Ls) < 5:
-                    op = ["NL", pick(us) if us and rng.random() < 0.3 else None]
+                    op = ["NL", pick(us) if us and rng.random() < weights.get("_nl_applies", 0.0) else None, rng.randrange(64)]
             elif t == "NE":
                 if len(ls) < 5:
                     a, b = ov(), ov()
